@@ -57,6 +57,17 @@ def digests(e):
     return out
 
 
+def _share(e, tab):
+    """equal copy in which every pair of equal (typed) sub-terms is one and the same object"""
+    import dataclasses
+    if isinstance(e, pymbolic.primitives.Expression) and normal.is_expr_dataclass(type(e)):
+        new = type(e)(*[_share(getattr(e, f.name), tab) for f in dataclasses.fields(e)])
+        return tab.setdefault(normal.typed_key(new), new)
+    if isinstance(e, tuple):
+        return tuple(_share(c, tab) for c in e)
+    return e
+
+
 def base(role):
     return {"role": role, "pid": os.getpid(), "seed": os.environ.get("PYTHONHASHSEED"),
             "opt": not __debug__}
@@ -131,6 +142,13 @@ def consume(recipes, producer_log, out):
                     ev["local_digests"] = digests(mine)
                     chk["digest_vs_local"] = ev["digests"] == ev["local_digests"]
                     chk["digest_vs_producer"] = ev["digests"] == pe["digests"]
+                    # structure only: the same tree with every equal sub-term made ONE shared
+                    # object, and with no object shared at all, has the same persistent key
+                    if pe["proto"] == 2 and not pe["hash_first"]:
+                        from vf.gen import expr as G
+                        chk["digest_vs_shared_objects"] = digests(_share(mine, {})) == ev["local_digests"]
+                        chk["digest_vs_unshared_objects"] = \
+                            digests(G.deep_rebuild(mine)) == ev["local_digests"]
                     ev["problems"] += [k for k, v in chk.items() if not v]
             except Exception as ex:  # noqa: BLE001
                 ev["problems"].append(f"raised {type(ex).__name__}: {ex}")
